@@ -175,3 +175,27 @@ Proof.
   apply walk_deps_no_cycle. intros w1 c1 s rs w1' c1' e1.
   destruct (existsb (Nat.eqb s) cyc); [discriminate|apply IH].
 Qed.
+
+(* with the fuel the model's commands actually use: in a database whose edges
+   point at existing rows there are at most as many distinct sources as rows *)
+Corollary walk_terminates_rows runid cyc w c f r mx :
+  (forall x, In x (deps (dbs w)) -> (1 <= d_source x <= length (rows (dbs w)))%nat) ->
+  forall fuel, (length (rows (dbs w)) + 1 < fuel)%nat ->
+  is_dirty fuel runid cyc w c f r mx [] <> EFuel.
+Proof.
+  intros Hv fuel Hfuel. apply walk_terminates.
+  eapply Nat.le_lt_trans; [|exact Hfuel].
+  set (U := f :: map d_source (deps (dbs w))).
+  assert (Hincl : incl (nodup Nat.eq_dec U) (f :: seq 1 (length (rows (dbs w))))).
+  { intros x Hx. apply nodup_In in Hx. destruct Hx as [->|Hx]; [now left|]. right.
+    apply in_map_iff in Hx as (d & <- & Hd). apply in_seq. specialize (Hv _ Hd). lia. }
+  pose proof (NoDup_incl_length (NoDup_nodup Nat.eq_dec U) Hincl) as H.
+  cbn [length] in H. rewrite seq_length in H. lia.
+Qed.
+
+Corollary walk_terminates_default_fuel runid cyc w c f r mx :
+  (forall x, In x (deps (dbs w)) -> (1 <= d_source x <= length (rows (dbs w)))%nat) ->
+  is_dirty (default_fuel w) runid cyc w c f r mx [] <> EFuel.
+Proof.
+  intro Hv. apply walk_terminates_rows; [exact Hv|]. unfold default_fuel. lia.
+Qed.
